@@ -39,3 +39,16 @@ Definition boundary (l : list Z) (i : nat) : bool :=
 
 Definition is_byte (b : Z) : bool := inr 0 255 b.
 Definition bytes_ok (l : list Z) : bool := forallb is_byte l.
+
+(* ---- the definition of UTF-8 (Unicode ch. 3, D76/D92, Table 3-6), added for C20 ----
+   Unicode scalar values: code points 0..10FFFF except the surrogates D800..DFFF. *)
+Definition scalar (c : Z) : bool := inr 0 55295 c || inr 57344 1114111 c.
+
+(* the UTF-8 encoding form of one scalar value (what char::encode_utf8 computes) *)
+Definition encode_scalar (c : Z) : list Z :=
+  if c <? 128 then [c]
+  else if c <? 2048 then [192 + c / 64; 128 + c mod 64]
+  else if c <? 65536 then [224 + c / 4096; 128 + (c / 64) mod 64; 128 + c mod 64]
+  else [240 + c / 262144; 128 + (c / 4096) mod 64; 128 + (c / 64) mod 64; 128 + c mod 64].
+
+Definition encode_scalars (cs : list Z) : list Z := concat (map encode_scalar cs).
